@@ -265,7 +265,7 @@ def eng_fields():
     return FIELDS
 
 
-RETRY_CONFIGS = [{"smt.random_seed": 11}, {"smt.mbqi": False}, {"smt.random_seed": 23, "smt.qi.eager_threshold": 50},
+RETRY_CONFIGS = [{"smt.random_seed": 11}, {"smt.mbqi": False}, {"smt.random_seed": 23, "smt.qi.eager_threshold": 50.0},
                  {"smt.mbqi": False, "smt.random_seed": 5}]
 
 
